@@ -8,7 +8,7 @@ variable {α : Type}
 /-- the handle an operation is applied to -/
 def Op.target : Op α → Nat
   | .build h _ _ => h | .noCopy h _ => h | .withCopy h _ => h | .destroy h => h
-  | .allocate h _ => h | .resize h _ => h | .reserve h _ => h | .pushBack h _ => h | .write h _ _ => h
+  | .allocate h _ => h | .resize h _ => h | .reserve h _ => h | .pushBack h _ => h | .pushBackSelf h _ => h | .write h _ _ => h
   | .copy h _ => h | .logcopy h _ => h | .assign h _ => h
 
 def Op.isWrite : Op α → Bool
@@ -35,6 +35,7 @@ theorem stepCore_good [Inhabited α] {s : State α} (I : Inv s) (op : Op α) (hb
   | resize h sz => exact (reallocate_good I (hb' h (by simp [Op.handles])) sz).1
   | reserve h sz => exact (reserve_good I (hb' h (by simp [Op.handles])) sz).1
   | pushBack h v => exact pushBack_good I (hb' h (by simp [Op.handles])) v
+  | pushBackSelf h i => exact pushBackSelf_good I (hb' h (by simp [Op.handles])) i
   | write h i v => simp [Op.isWrite] at nw
   | copy h g => exact copy_good I (hb' h (by simp [Op.handles])) (hb' g (by simp [Op.handles]))
   | logcopy h g => exact logcopy_good I (hb' h (by simp [Op.handles])) (hb' g (by simp [Op.handles]))
